@@ -601,6 +601,23 @@ pub fn cmd_info(args: &[String]) -> i32 {
       roundtrip(&spec, &text, &mut problems, &mut roundtrips, &mut nontrivial);
     }
   }
+  // a matrix of documents covering every descriptor kind / argument / attribute form (the vocabulary of Analyzer.tla)
+  {
+    use rand::SeedableRng;
+    let mut r2 = rand::rngs::StdRng::seed_from_u64(seed ^ 0x5eed);
+    let all = ["imp", "impDefault", "impNs", "side", "impJson", "impType", "impInlineType", "expNamed", "expStar", "expStarAs", "expType", "expTypeStar", "impEq",
+               "expImpEq", "typeImportExpr", "typeofImport", "declMod", "dyn", "dynTpl", "dynTplParts", "dynExpr", "dynJson", "dynUnknownAttr", "req", "tsTypesImp",
+               "denoTypesImp", "tsTypesExport", "jsdocType", "jsdocImportTag", "impDefer", "dynDefer", "dynSource", "impSource", "reqTpl"];
+    let ts_only = ["impType", "impInlineType", "expType", "expTypeStar", "impEq", "expImpEq", "typeImportExpr", "typeofImport", "declMod"];
+    for (mt, header) in [("ts", "refTypesMode"), ("js", "selfTypes"), ("tsx", "jsxSourceTypes"), ("jsx", "jsxSource"), ("mjs", "refPath")] {
+      for chunk in all.chunks(3) {
+        let items: Vec<&str> = chunk.iter().copied().filter(|i| mt == "ts" || mt == "tsx" || !ts_only.contains(i)).collect();
+        let doc = json!({"header": header, "items": items, "footer": "sourceMap"});
+        let r = analyzer::render(&doc, mt, &mut r2);
+        roundtrip(&format!("file:///matrix.{}", analyzer::ext_of(mt)), &r.text, &mut problems, &mut roundtrips, &mut nontrivial);
+      }
+    }
+  }
   for i in 0..n {
     let mut world = jsr::gen_info_world(&mut rng);
     let wid = format!("iw{i}");
@@ -1035,7 +1052,9 @@ pub fn cmd_symbols(args: &[String]) -> i32 {
       }
       roots.sort();
       worlds += 1;
-      run(format!("star{i}"), files, roots, Some(case["expect"].clone()), &mut out, &mut problems);
+      let mut exp = case["expect"].clone();
+      exp["__own"] = case["own"].clone();
+      run(format!("star{i}"), files, roots, Some(exp), &mut out, &mut problems);
     }
   }
   let mut rng = rand::rngs::StdRng::seed_from_u64(seed);
